@@ -159,6 +159,18 @@ func renderXML(items []xmlItem, st *xmlStyle) string {
 		case "chars":
 			s := str(it.V)
 			switch it.How {
+			case "split3":
+				// three pieces of character data in a row: text, a CDATA section, text
+				cs := it.V
+				k1, k2 := len(cs)/3, 2*len(cs)/3
+				if k1 == 0 {
+					k1, k2 = 1, 2
+				}
+				if len(cs) < 3 {
+					b.WriteString(escText(s, false))
+					break
+				}
+				b.WriteString(escText(str(cs[:k1]), false) + "<![CDATA[" + str(cs[k1:k2]) + "]]>" + escText(str(cs[k2:]), false))
 			case "cdata":
 				b.WriteString("<![CDATA[" + strings.ReplaceAll(s, "]]>", "]]]]><![CDATA[>") + "]]>")
 			case "ref":
